@@ -269,12 +269,62 @@ func genStructPair(r *vlib.Rng, depth int) (string, string) {
 		switch p := r.Intn(100); {
 		case p < 65:
 			a, b := genFieldPair(r, depth)
+			if exp == "+" && r.Chance(4) {
+				// names that differ only in case are different names: nothing is matched
+				sf = append(sf, name+"b"+exp+a)
+				df = append(df, name+"B"+exp+a)
+				continue
+			}
 			sf = append(sf, name+exp+a)
 			df = append(df, name+exp+b)
 		case p < 82:
 			sf = append(sf, name+exp+genLeaf(r))
 		default:
 			df = append(df, name+exp+genLeaf(r))
+		}
+	}
+	// embedded fields: one side (or both) embeds a defined struct type, by value or by pointer, whose own field
+	// names are drawn from the same small universe as the direct fields of the other side (In1: X Y, In2: X Y Z,
+	// In3: X, Deep1/Deep2: A P N, Basic: A..F). Go promotes those names into the outer struct; for the copiers
+	// only the embedded field itself (named after the type) is a field of the struct.
+	if r.Chance(22) {
+		emb := func() string {
+			e := vlib.Pick(r, structTys)
+			name := strings.TrimSuffix(strings.TrimPrefix(e, "N"), ";")
+			if r.Chance(40) {
+				e = "p" + e
+			}
+			return name + "*" + e
+		}
+		ins := func(fs []string, f string) []string {
+			i := 0
+			if len(fs) > 0 && r.Chance(40) {
+				i = r.Intn(len(fs) + 1)
+			}
+			fs = append(fs, "")
+			copy(fs[i+1:], fs[i:])
+			fs[i] = f
+			return fs
+		}
+		switch p := r.Intn(100); {
+		case p < 50:
+			sf = ins(sf, emb())
+		case p < 70:
+			df = ins(df, emb())
+		case p < 85: // the same embedded type on both sides, pointers chosen independently
+			e := emb()
+			sf = ins(sf, e)
+			if r.Chance(30) {
+				if strings.Contains(e, "*p") {
+					e = strings.Replace(e, "*p", "*", 1)
+				} else {
+					e = strings.Replace(e, "*", "*p", 1)
+				}
+			}
+			df = ins(df, e)
+		default:
+			sf = ins(sf, emb())
+			df = ins(df, emb())
 		}
 	}
 	// the two sides list their fields in independent orders
